@@ -132,6 +132,8 @@ pub struct CallRec {
     pub fx: Vec<Effect>,
     pub hcalls: Vec<HCall>,
     pub panic: Option<String>,
+    /// Some(description) when the AccumulatingRuntime twin produced different effects
+    pub twin_mismatch: Option<String>,
 }
 
 impl CallRec {
@@ -167,6 +169,10 @@ pub struct Setup {
     pub policy: Policy,
     pub hcfg: HandlerCfg,
     pub rng_seed: u64,
+    /// also drive a twin instance (same seed, same inputs) through foca::AccumulatingRuntime and
+    /// compare its three FIFO streams with the directly implemented runtime after every call (C08)
+    #[serde(default)]
+    pub acc_twin: bool,
 }
 
 /// Public (and hook-visible) state after a call.
@@ -196,6 +202,8 @@ impl Obs {
 }
 
 pub struct Node {
+    pub twin: Option<(F, foca::AccumulatingRuntime<SimId>)>,
+    pub twin_checked: u64,
     pub foca: F,
     pub hlog: Rc<RefCell<HLog>>,
     pub codec: CodecKind,
@@ -238,7 +246,16 @@ impl Node {
             AnyCodec::new(setup.codec),
             handler,
         );
-        Node { foca, hlog, codec: setup.codec, poisoned: false, calls: 0 }
+        let twin = if setup.acc_twin {
+            let (h2, _log2) = SimHandler::new(setup.hcfg);
+            Some((
+                Foca::with_custom_broadcast(setup.id, setup.cfg.clone(), SimRng::new(setup.rng_seed), AnyCodec::new(setup.codec), h2),
+                foca::AccumulatingRuntime::new(),
+            ))
+        } else {
+            None
+        };
+        Node { twin, twin_checked: 0, foca, hlog, codec: setup.codec, poisoned: false, calls: 0 }
     }
 
     pub fn id(&self) -> SimId {
@@ -300,6 +317,65 @@ impl Node {
         if self.hlog.borrow().calls.len() > 4096 {
             self.hlog.borrow_mut().calls.clear();
         }
-        CallRec { input, result, fx: rec.fx, hcalls, panic }
+        let mut twin_mismatch = None;
+        if panic.is_none() {
+            if let Some((tf, rt)) = self.twin.as_mut() {
+                let r2 = catch_unwind(AssertUnwindSafe(|| -> Res {
+                    let to_res = |r: Result<(), Error>| match r {
+                        Ok(()) => Res::Ok,
+                        Err(e) => Res::Err(err_kind(&e)),
+                    };
+                    match &input {
+                        Input::Data(d) => to_res(tf.handle_data(d, &mut *rt)),
+                        Input::Timer(t) => to_res(tf.handle_timer(t.clone(), &mut *rt)),
+                        Input::Announce(dst) => to_res(tf.announce(*dst, &mut *rt)),
+                        Input::Gossip => to_res(tf.gossip(&mut *rt)),
+                        Input::Broadcast => to_res(tf.broadcast(&mut *rt)),
+                        Input::Leave => to_res(tf.leave_cluster(&mut *rt)),
+                        Input::AddBroadcast(d) => match tf.add_broadcast(d) {
+                            Ok(b) => Res::OkBool(b),
+                            Err(e) => Res::Err(err_kind(&e)),
+                        },
+                        Input::ApplyMany(ms, b) => to_res(tf.apply_many(ms.iter().cloned(), *b, &mut *rt)),
+                        Input::ChangeIdentity(id) => to_res(tf.change_identity(*id, &mut *rt)),
+                        Input::ReuseDown => to_res(tf.reuse_down_identity()),
+                        Input::SetConfig(c) => to_res(tf.set_config(c.clone())),
+                    }
+                }));
+                match r2 {
+                    Err(_) => twin_mismatch = Some("the AccumulatingRuntime twin panicked".to_string()),
+                    Ok(res2) => {
+                        self.twin_checked += 1;
+                        let mut sends = Vec::new();
+                        while let Some((to, data)) = rt.to_send() {
+                            sends.push((to, data.to_vec()));
+                        }
+                        let mut scheds = Vec::new();
+                        while let Some((after, t)) = rt.to_schedule() {
+                            scheds.push((t, after));
+                        }
+                        let mut notes = Vec::new();
+                        while let Some(n) = rt.to_notify() {
+                            notes.push(n);
+                        }
+                        let d_sends: Vec<(SimId, Vec<u8>)> = rec.fx.iter().filter_map(|e| if let Effect::Send { to, data } = e { Some((*to, data.clone())) } else { None }).collect();
+                        let d_scheds: Vec<(Timer<SimId>, std::time::Duration)> = rec.fx.iter().filter_map(|e| if let Effect::Sched { timer, after } = e { Some((timer.clone(), *after)) } else { None }).collect();
+                        let d_notes: Vec<foca::OwnedNotification<SimId>> = rec.fx.iter().filter_map(|e| if let Effect::Notify(n) = e { Some(n.clone()) } else { None }).collect();
+                        if res2 != result {
+                            twin_mismatch = Some(format!("result {res2:?} vs {result:?}"));
+                        } else if sends != d_sends {
+                            twin_mismatch = Some(format!("to_send() yields {} datagram(s), the direct runtime saw {}", sends.len(), d_sends.len()));
+                        } else if scheds != d_scheds {
+                            twin_mismatch = Some(format!("to_schedule() yields {:?}, the direct runtime saw {:?}", scheds, d_scheds));
+                        } else if notes != d_notes {
+                            twin_mismatch = Some(format!("to_notify() yields {:?}, the direct runtime saw {:?}", notes, d_notes));
+                        } else if rt.backlog() != 0 {
+                            twin_mismatch = Some(format!("backlog() is {} after draining", rt.backlog()));
+                        }
+                    }
+                }
+            }
+        }
+        CallRec { input, result, fx: rec.fx, hcalls, panic, twin_mismatch }
     }
 }
